@@ -534,3 +534,16 @@ def r7(ctx):
 def r8(ctx):
     from .c08 import r5 as close_releases_transport
     close_releases_transport(ctx)
+
+
+@rule("R-C14-10", min_instances=3, title="KeyboardInterrupt raised in a callback is not swallowed by the callback wrapper: the run ends")
+def r_sib_r_c14_10(ctx):
+    from .c13 import r2 as containment
+    containment(ctx)
+
+
+@rule("R-C14-11", min_instances=3, title="the ping thread of every connection gets a fresh stop event (otherwise a silent peer on a later connection is never detected and the run never ends)")
+def r_sib_r_c14_11(ctx):
+    from .c16 import r5 as ping_thread_lifecycle
+    ping_thread_lifecycle(ctx)
+
